@@ -277,9 +277,60 @@ theorem C05_entry_holder (p : Policy) (s : Setup) (c : ChainState) (e e' : EStat
 def testnetPolicy (onchain : Bool) : Policy := { Gen.Policy.defaultTestnet with onchain := onchain }
 def mainnetPolicy (onchain : Bool) : Policy := { Gen.Policy.defaultMainnet with onchain := onchain }
 
-/-- the default filter generated from the source keeps every tag an error -/
-example (oc : Bool) : NonPermissive (testnetPolicy oc) := by intro t _; cases oc <;> rfl
-example (oc : Bool) : NonPermissive (mainnetPolicy oc) := by intro t _; cases oc <;> rfl
+/-! #### the filter hypothesis, discharged for the default policies generated from the source
+
+`Gen/Policy.lean` carries (regenerated on every run) the tags of all `policy_err!` sites on the modelled
+paths and the rule list of `PolicyFilter::default()`, which both `make_default_simple_policy` branches use.
+The three theorems below are evaluated by the kernel over those generated strings: a default downgrade added
+in the source (a warn rule or prefix matching one of the tags), or a `policy_err!` tag the model does not
+know, breaks an obligation. -/
+
+/-- the tags the model relies on are exactly the tags the source uses on these paths -/
+theorem C05_gen_tags_covered :
+    (∀ s ∈ Gen.Policy.commitmentPathTags, s ∈ commitmentTags.map Tag.name) ∧
+    (∀ t ∈ commitmentTags, t.name ∈ Gen.Policy.commitmentPathTags) ∧
+    (∀ s ∈ Gen.Policy.setupPathTags, s ∈ [Tag.channelSafeType, .delayHolder, .delayCounterparty, .mutualDestinationAllowlisted].map Tag.name) ∧
+    (∀ t ∈ [Tag.channelSafeType, .delayHolder, .delayCounterparty], t.name ∈ Gen.Policy.setupPathTags) ∧
+    Gen.Policy.sizePathTags = [Tag.fundingMax.name] ∧
+    Gen.Policy.onchainPathTags = [Tag.spendsActiveUtxo.name] := by
+  decide +kernel
+
+/-- **the default filter of both networks is strict** on every tag of the setup / size / commitment /
+    on-chain paths (kernel evaluation of `PolicyFilter::filter` over the generated rule list) -/
+theorem C05_default_filter_strict :
+    ∀ s ∈ Gen.Policy.setupPathTags ++ Gen.Policy.sizePathTags ++ Gen.Policy.commitmentPathTags ++ Gen.Policy.onchainPathTags,
+      filterEval Gen.Policy.defaultMainnet.filter s = .error ∧ filterEval Gen.Policy.defaultTestnet.filter s = .error := by
+  decide +kernel
+
+/-- hence `C05_main`'s hypothesis holds for the generated default policies (simple or on-chain validator) -/
+theorem C05_default_nonpermissive (oc : Bool) : NonPermissive (testnetPolicy oc) ∧ NonPermissive (mainnetPolicy oc) := by
+  have key : ∀ t ∈ commitmentTags, filterEval Gen.Policy.defaultMainnet.filter t.name = .error ∧
+      filterEval Gen.Policy.defaultTestnet.filter t.name = .error := by
+    intro t ht
+    exact C05_default_filter_strict t.name (by
+      simp only [List.mem_append]
+      exact Or.inl (Or.inr (C05_gen_tags_covered.2.1 t ht)))
+  constructor
+  · intro t ht
+    show (filterEval Gen.Policy.defaultTestnet.filter t.name == .error) = true
+    rw [(key t ht).2]; rfl
+  · intro t ht
+    show (filterEval Gen.Policy.defaultMainnet.filter t.name == .error) = true
+    rw [(key t ht).1]; rfl
+
+/-- … and the setup / size / on-chain theorems' hypotheses likewise -/
+theorem C05_default_errs_other (oc : Bool) (t : Tag)
+    (ht : t ∈ [Tag.channelSafeType, .delayHolder, .delayCounterparty, .fundingMax, .spendsActiveUtxo]) :
+    errs (testnetPolicy oc) t = true ∧ errs (mainnetPolicy oc) t = true := by
+  have : t.name ∈ Gen.Policy.setupPathTags ++ Gen.Policy.sizePathTags ++ Gen.Policy.commitmentPathTags ++ Gen.Policy.onchainPathTags := by
+    revert t; decide +kernel
+  obtain ⟨h1, h2⟩ := C05_default_filter_strict t.name this
+  constructor
+  · show (filterEval Gen.Policy.defaultTestnet.filter t.name == .error) = true
+    rw [h2]; rfl
+  · show (filterEval Gen.Policy.defaultMainnet.filter t.name == .error) = true
+    rw [h1]; rfl
+
 example (oc : Bool) (t : Tag) : errs (testnetPolicy oc) t = true := by cases oc <;> rfl
 /-- the permissive filter is excluded by the hypothesis, as C05 words it -/
 example : ¬ NonPermissive { testnetPolicy false with filter := permissiveFilter } := by
